@@ -18,3 +18,6 @@ def check(ctx):
     # other thread; a panic on the scan path kills the scanning thread.  Both inventories are part of this property.
     from . import panics
     panics.analyze(ctx, {"C15.h", "C07.d"})
+    # the property is observed on scanners obtained through build(): the cache must hand back the configuration's own compilation
+    from .common import cache_foundation
+    cache_foundation(ctx)
